@@ -28,7 +28,7 @@ ASSUMPTIONS = [
 ]
 CONFIG = {
     "quick": {"examples": 1600, "shards": 16, "shrink_s": 40, "time_budget_s": 240},
-    "thorough": {"examples": 20000, "shards": 16, "shrink_s": 200, "time_budget_s": 1500},
+    "thorough": {"examples": 45000, "shards": 16, "shrink_s": 200, "time_budget_s": 1500},
 }
 
 
